@@ -2,6 +2,7 @@ package rules
 
 import (
 	"go/token"
+	"go/types"
 
 	"wsverif/core"
 )
@@ -46,7 +47,7 @@ func (rd *reader) readUnmask(rule string) {
 				if _, isP := fieldLoad(pos, rd.readMaskPos); !isP {
 					ok, why = false, "payload is unmasked from key position "+pos.String()+" instead of the carried Conn.readMaskPos"
 				}
-				if !(sl.Kind == core.KSlice && sl.Args[0] == buf && sl.Args[1].Kind == core.KNone && sl.Args[2] == n) {
+				if !firstNOf(p.X, sl, buf, n) {
 					ok, why = false, "the unmasked range is not exactly the n bytes just read (b[:n])"
 				}
 				stored := false
@@ -248,4 +249,24 @@ func (rd *reader) inflateWrap(rule string) {
 		}
 	})
 	r.Check(rule, shortFn(rd.nextReader), "wrap-iff-readDecompress", rd.nextReader.Pos(), ok && n >= 2, why)
+}
+
+// firstNOf: sl denotes exactly the first n bytes of the storage that buf
+// denotes (buf itself may be a sub-slice b[lo:hi] of some base; nested slices
+// are normalised by the engine to one level).
+func firstNOf(x *core.Explorer, sl, buf, n *core.Term) bool {
+	if sl.Kind != core.KSlice {
+		return false
+	}
+	base, lo := buf, x.T.None()
+	if buf.Kind == core.KSlice {
+		base, lo = buf.Args[0], buf.Args[1]
+	}
+	if sl.Args[0] != base {
+		return sl.Args[0] == buf && sl.Args[1].Kind == core.KNone && sl.Args[2] == n
+	}
+	if lo.Kind == core.KNone {
+		return sl.Args[1].Kind == core.KNone && sl.Args[2] == n
+	}
+	return sl.Args[1] == lo && sl.Args[2] == x.Bin(token.ADD, x.StripWiden(lo), x.StripWiden(n), types.Typ[types.Int])
 }
